@@ -1,7 +1,37 @@
-//! DetrendedPriceOscillator — reference model (TODO).
+//! DetrendedPriceOscillator. Doc: 1 value — `DPO`; no signals.
+//! Formula as stated in the source file next to the doc comment:
+//!   DPO = price from (X/2 + 1) periods ago - X-period moving average (of the current period),
+//!   X = period of `ma` (integer division), price = `source`.
 use super::*;
 
-/// returns None until the reference is written
-pub fn make(_cfg: &Cfg, _c0: &RC) -> Option<Box<dyn IndRef>> {
-	None
+#[derive(Clone)]
+struct Dpo {
+	src: String,
+	past: rm::Win,
+	ma: Box<dyn rm::RefVV>,
+}
+
+pub fn make(cfg: &Cfg, c0: &RC) -> Option<Box<dyn IndRef>> {
+	let src = cfg.src("source");
+	let s0 = source(c0, &src);
+	let (_, x) = cfg.ma("ma");
+	Some(Box::new(Dpo {
+		past: rm::Win::new_q(rm::WinKind::Past, x / 2 + 1, s0),
+		// the average of the constant prehistory is that constant
+		ma: cfg.ma_ref("ma", s0),
+		src,
+	}))
+}
+
+impl IndRef for Dpo {
+	fn values(&mut self, c: &RC) -> Vec<Q> {
+		let s = source(c, &self.src);
+		let old = self.past.step(s);
+		let avg = self.ma.stepq(s);
+		vec![old - avg]
+	}
+	fn signals(&mut self, _c: &RC, _own: &[f64]) -> Vec<Sig> {
+		vec![]
+	}
+	indref!(Dpo);
 }
